@@ -3,12 +3,12 @@
 # SessionManager + server sessions (small MaxStreamNum), model evaluated on the same histories, property
 # oracle evaluated on every quiescent point; a concurrent Get/Put scenario checks the ring clauses.
 import json, os, re
-from vlib import core, gen
+from vlib import core, gen, sched
 
 PROP = "C15"
 META = {
-    "technique": "Coq proof: inductive invariants over all histories of the atomic pool operations (any number of callers, peer closes, late data, fallback, session loss/rebuild); tie: differential execution of the model against a real SessionManager/server pair on generated histories + independent oracle",
-    "level_text": "For every capacity, any number of callers and every history: C15_ring (exclusive ownership, ring bound, wrap-around incl. capacity 0 and 1), C15_table, C15_clean_live (returned stream open, session live, not in fallback, sole holder), and - for the current tree, whose two repairs are translated from the source into Gen/SwitchC15.v on every run - C15_clean_buffers (recvBuf and sendBuf of a returned stream are empty) and C15_no_leak (active = held + pooled in every live session) hold without hypothesis. The remaining clause (no pending data) is refuted (C15_clean_refuted: a response that arrives after PutBack reaches the next holder; known finding, the protocol has no stream generation) and proved under 'the peer sends nothing to a pooled stream' (C15_partial_no_pending). The two repaired defects stay as directed cases 0/1 of every run and as regression Examples about the old-code variants.",
+    "technique": "Coq proof: inductive invariants over all histories of the pool operations (GetStream atomic; PutBack as its two real phases: work on the still-held stream, then the push; any number of callers, peer closes, late data, fallback, session loss/rebuild); tie: differential execution of the model against a real SessionManager/server pair on generated histories + independent oracle, a real-concurrency PutBack-vs-spinning-GetStream scenario, and mechanism S: the real PutBack and GetStream as controlled threads (free-list accesses and the pool mutex as steps) under every single-pre-emption schedule, with the observed position of the push compared with the model (PutPush is the last step)",
+    "level_text": "For every capacity, any number of callers and every history: C15_ring (exclusive ownership, ring bound, wrap-around incl. capacity 0 and 1), C15_put_exclusive (a stream inside PutBack is still held by the putting caller and not in the ring until PutBack's last step), C15_table, C15_clean_live (returned stream open, session live, not in fallback, sole holder), and - for the current tree, whose two repairs are translated from the source into Gen/SwitchC15.v on every run - C15_clean_buffers (recvBuf and sendBuf of a returned stream are empty) and C15_no_leak (active = held + pooled in every live session) hold without hypothesis. The remaining clause (no pending data) is refuted (C15_clean_refuted: a response that arrives after PutBack reaches the next holder; known finding, the protocol has no stream generation) and proved under 'the peer sends nothing to a pooled stream' (C15_partial_no_pending). The two repaired defects stay as directed cases 0/1 of every run and as regression Examples about the old-code variants.",
     "level_note": "Trusted: coqc kernel; Get/Put modelled as atomic labels (push/pop run under the pool mutex, flags are monotone atomics); buffers abstracted to per-slice byte counts; correspondence is sampled (directed + random histories, one concurrent stress scenario), timing of the event loop is waited for with generous bounds.",
 }
 
@@ -106,7 +106,7 @@ def op_to_coq(o):
     if k == "get":
         return "HL (Get %s)" % nat(c)
     if k == "put":
-        return "HL (Put %s %s)" % (nat(c), nat(s))
+        return "HPut %s %s" % (nat(c), nat(s))
     if k == "write":
         return "HL (Write %s %s %s %s)" % (nat(c), nat(s), core.z(n), b(o["fb"]))
     if k == "flush":
@@ -219,6 +219,49 @@ def collect_oracle(cases):
     return res
 
 
+def instrument_pool():
+    """buffer_manager.go instrumented by go/verisched (every free-list access is a scheduling point) plus - done
+    here, textually, on a copy of session_manager.go - streamPool's mutex as a scheduling point: p.Lock()/p.Unlock()
+    in the methods of *streamPool become vsLock/vsUnlock(&p.Mutex).  Returns (overlay dict, error)."""
+    ov, rep, err = sched.instrument(["buffer_manager.go"])
+    if err:
+        return None, err
+    key = os.path.join(core.REPO, "session_manager.go")
+    src = open(key).read()
+    n = [0]
+
+    def in_pool(m):
+        body = m.group(0)
+        body, k1 = re.subn(r"\bp\.Lock\(\)", "vsLock(&p.Mutex)", body)
+        body, k2 = re.subn(r"\bp\.Unlock\(\)", "vsUnlock(&p.Mutex)", body)
+        n[0] += k1 + k2
+        return body
+    src = re.sub(r"func \(p \*streamPool\) (?:pop|push)\(.*?\n}\n", in_pool, src, flags=re.S)
+    if n[0] < 5:
+        return None, "cannot find the critical sections of streamPool.pop/push in session_manager.go (found %d Lock/Unlock)" % n[0]
+    d = os.path.join(core.WORK, "inst_c15_" + core.tree_hash())
+    os.makedirs(d, exist_ok=True)
+    p = os.path.join(d, "session_manager.go")
+    with open(p, "w") as fh:
+        fh.write(src)
+    ov = dict(ov)
+    ov[key] = p
+    return ov, None
+
+
+def run_sched(tag, n):
+    ov, err = instrument_pool()
+    if err:
+        return None, "instrumenting the pool failed: " + err
+    outp = os.path.join(core.WORK, "c15s_%s_%d.jsonl" % (tag, os.getpid()))
+    rc, out, secs = core.go_test(PROP, "^TestVerif_C15Sched$", {"VERIF_OUT": outp, "VERIF_N": str(n)}, extra_replace=ov, timeout=900)
+    if rc != 0 or not os.path.exists(outp):
+        return None, "scheduled harness failed (rc=%d): %s" % (rc, out[-2500:])
+    cases = [json.loads(l) for l in open(outp)]
+    os.unlink(outp)
+    return cases, None
+
+
 def check(run):
     data, gerr = gen.regenerate()
     if gerr:
@@ -259,6 +302,32 @@ def check(run):
             run.add_corr_break("D: case %s (%s): after op %s (%s) the model and the real pool differ in: %s"
                                % (c["id"], c["kind"], step, o.get("op"), FIELDS.get(field, field)),
                                dict(brief(c, step), differs_in=FIELDS.get(field, field), model_switches=list(fx)))
+    # ---- mechanism S: PutBack against GetStream, on the real code, one free-list / pool-mutex access per step ----
+    scases, serr = run_sched(run.tier, 60 if run.tier == "quick" else 100000)
+    if serr:
+        run.add_corr_break("S: " + serr)
+        scases = []
+    push_last = set()
+    for sc in scases:
+        if "HARNESS" in (sc.get("note") or ""):
+            run.add_corr_break("S: schedule %s: %s" % (sc.get("id"), sc["note"]), sc)
+        for m in sc.get("oracle") or []:
+            sig, _, what = m.partition("|")
+            run.add_oracle_failure(sig, what, {"scheduled_scenario": "caller A (thread 0) puts back a stream whose read slices are parked in the pinned list while caller B (thread 1) calls GetStream on the otherwise empty pool; one free-list / pool-mutex access per step",
+                                               "a_steps_before_b": sc.get("k"), "schedule": sc.get("schedule"), "state_at_handout": sc.get("state_at_handout")})
+        kinds = sc.get("a_kinds") or []
+        locks = [i for i, k in enumerate(kinds) if k == 4]
+        others = [i for i, k in enumerate(kinds) if k not in (4, 6)]
+        if locks and others:
+            push_last.add(locks[0] > others[-1])
+    if scases and push_last != {True}:
+        run.add_corr_break("S: PutBack takes the pool mutex (push) before its last free-list access (ReleaseReadAndReuse still releasing pinned slices): "
+                           "in Model/Pool.v the push (PutPush) is the LAST step of PutBack, after PutPrepare has finished with the stream",
+                           {"a_kinds_of_first_schedule": (scases[0].get("a_kinds") if scases else None)})
+    # the deterministic schedule makes the better replay: put scheduled witnesses first (stable sort)
+    run.oracle_failures.sort(key=lambda f: 0 if isinstance(f.get("case"), dict) and "scheduled_scenario" in f["case"] else 1)
+    sched_cov = {"scheduled_cases": len(scases), "push_is_last_step_of_putback": sorted(push_last),
+                 "putback_steps": len((scases[0].get("a_kinds") or [])) if scases else 0}
     feats = {}
     distinct = set()
     nops = 0
@@ -270,7 +339,7 @@ def check(run):
         for o in c["ops"]:
             opmix[o["op"]] = opmix.get(o["op"], 0) + 1
         if set(c["feat"]) & {"ring-wrapped", "put-on-full-ring", "peer-close-while-pooled", "put-with-unread-data", "put-fallback-stream",
-                             "session-loss", "peer-data-for-pooled-stream", "put-with-unflushed-bytes", "concurrent"}:
+                             "session-loss", "peer-data-for-pooled-stream", "put-with-unflushed-bytes", "concurrent", "put-race"}:
             distinct.add(json.dumps([c["kind"], c["cap"], [[o["op"], o["c"], o["s"], o["n"]] for o in c["ops"]], c.get("note") if c["kind"] == "concurrent" else None]))
     run.coverage.update({
         "evaluations": len(cases), "distinct_nontrivial": len(distinct),
@@ -281,12 +350,14 @@ def check(run):
         "histories_rerun_after_an_expired_harness_wait": sum(1 for c in cases if c.get("retries")),
         "expired_waits": [w for c in cases for w in (c.get("expired") or [])][:10],
         "capacities": sorted({c["cap"] for c in cases}),
+        "scheduled_putback_vs_getstream": sched_cov,
         "model_switches": {"sw_close_discarded": fx[0], "sw_reset_rejects_unflushed": fx[1]},
         "model_switches_chosen_because": fdesc,
         "oracle_failures_by_signature": {s: sum(1 for f in run.oracle_failures if f["signature"] == s) for s in sorted({f["signature"] for f in run.oracle_failures})},
     })
     run.assumptions += [
-        "GetStream/PutBack are linearised to atomic labels: push/pop run under the pool mutex and a popped stream is owned exclusively; the flags read afterwards are monotone atomics",
+        "GetStream is one atomic label (push/pop run under the pool mutex, a popped stream is owned exclusively, the flags read afterwards are monotone atomics); PutBack is two labels: PutPrepare (its work on the still held stream) and PutPush (the hand-over)",
+        "mechanism S part: go/verisched instruments buffer_manager.go; props/C15.py additionally turns streamPool's mutex into a scheduling point (textual rewrite of a copy of session_manager.go); sequential consistency; schedules = PutBack k steps | GetStream completely | PutBack rest",
         "callers give back only streams they were given, once (PutBack of a foreign stream is outside the property's quantifier)",
         "writes fit one buffer slice in the model (slice-level behaviour is C06's, slot accounting C09's subject)",
         "the 30 s circuit-breaker timer is simulated by the harness (store 0 to session.unhealthy); every harness wait polls up to 60 s; a history in which a wait expires is re-run from scratch up to 2 more times and only a wait that expires in all 3 runs is reported, as an oracle failure (C15:awaited-event-never-happens)",
